@@ -25,13 +25,14 @@ THEOREMS = [
     "Epytext.colorize_conserves", "Epytext.colorize_conserves_live", "Epytext.strip_plain",
     "Epytext.symbols_total", "Epytext.liveCfg_total", "Epytext.tables_current",
     "Epytext.literal_block_exact", "Epytext.stripBlankEnds_joinNL", "Epytext.removed_prefix_is_space",
-    "Epytext.doctest_block_exact",
+    "Epytext.doctest_block_exact", "Epytext.not_underline_of_other_char", "Epytext.heading_underline",
     "Doctest.splice_conserves", "Doctest.subfunc_conserves", "Doctest.doctest_body_text",
     "Doctest.doctest_body_conserves", "Doctest.doctest_body_conserves_exact", "Doctest.doctest_body_old_counterexample",
     "Epytext.plaintext_exact",
     "Docstring.kept_iff_in_scope", "Docstring.every_tag_rendered_or_reported_partial",
     "Docstring.every_tag_but_type_rendered_or_reported",
     "Docstring.every_tag_rendered_or_reported_counterexample", "Docstring.handlers_modelled",
+    "Docstring.pair_both_orders_kept", "Docstring.runPair_last_desc", "Docstring.runPair_last_type",
 ]
 PARTIAL = {
     "Docstring.every_tag_rendered_or_reported_partial":
@@ -43,7 +44,9 @@ PARTIAL = {
 }
 RULE = ("documents from a structure-aware generator (paragraphs of words with punctuation and markup-looking characters "
         "that are legal in the format, nested bullet/ordered lists, inline markup incl. nested, links with and without "
-        "target, escapes, symbols, literal / doctest / code blocks, sections, every field kind) serialised to epytext, "
+        "target, escapes, symbols, literal / doctest / code blocks, sections of three levels, paragraphs whose later lines start "
+        "with `=`, `-`, `~` (`-1`, `--flag`, `~user`, `=>` …) incl. lines exactly as long as the line above, every field kind "
+        "with type fields before / after their description and shuffled field order) serialised to epytext, "
         "restructuredtext, google, numpy and plaintext and attached to a module, class or function of a real System. "
         "Oracle: word sequence of the rendered description == intended word sequence (formats reflow white space); "
         "<pre> blocks == intended block text character for character after removing the newline HTML ignores after <pre>, "
@@ -685,11 +688,57 @@ class DocGen:
             lines[0] = lines[0].lstrip()
         return ("code", lines or ["x = 1"])
 
+    HAZARDS = ["-1", "--flag", "~user", "=>", "-x", "~", "=", "-0.5", "==", "~~", "->", "=1"]
+
+    def hard(self):
+        """a paragraph of two or three physical lines whose later lines START with `=`, `-` or `~`; often a line is
+        exactly as long as the line above (what a heading underline would be)"""
+        lines: List[str] = []
+        nl = self.rng.choice([2, 2, 3])
+        later = []
+        for _ in range(nl - 1):
+            later.append(self.rng.choice(self.HAZARDS) + " " + " ".join(self.rng.choice(BASE) for _ in range(self.rng.randint(1, 5))))
+        first_target = len(later[0]) if self.rng.random() < 0.6 else None
+        first = self.rng.choice(BASE[:22]).capitalize()
+        if first_target is None:
+            first += " " + " ".join(self.rng.choice(BASE) for _ in range(self.rng.randint(1, 5)))
+        else:
+            while len(first) + 4 <= first_target:
+                w = self.rng.choice([b for b in BASE if len(first) + 1 + len(b) <= first_target] or ["x"])
+                first += " " + w
+            r = first_target - len(first)
+            if r >= 2:
+                first += " " + "x" * (r - 1)
+            elif r == 1:
+                first += "x"
+            if len(first) != first_target:          # the hazard line is shorter than any first line: lengthen it instead
+                later[0] += " " + "y" * max(1, len(first) - len(later[0]) - 1) if len(first) - len(later[0]) >= 2 else "y" * (len(first) - len(later[0]))
+        lines = [first] + later
+        if nl == 3 and self.rng.random() < 0.5:       # third line as long as the second
+            d = len(lines[1]) - len(lines[2])
+            if d >= 2:
+                lines[2] += " " + "z" * (d - 1)
+            elif d == 1:
+                lines[2] += "z"
+            elif d <= -2:
+                lines[1] += " " + "z" * (-d - 1)
+            elif d == -1:
+                lines[1] += "z"
+        return ("hard", lines)
+
+    def section(self, level=0):
+        body = [self.hard() if self.rng.random() < 0.35 else self.para()] + self.blocks(self.rng.randint(0, 2), False)
+        if level < 2 and self.rng.random() < 0.45:
+            body.append(self.section(level + 1))
+        return ("section", [("w", self.rng.choice(BASE).capitalize())] + self.words(0, 2), body, level)
+
     def blocks(self, n, allow_section=True):
         res = []
         for _ in range(n):
             r = self.rng.random()
-            if r < 0.42:
+            if r < 0.10:
+                res.append(self.hard())
+            elif r < 0.42:
                 res.append(self.para())
             elif r < 0.6:
                 res.append(self.lst())
@@ -700,8 +749,7 @@ class DocGen:
             elif r < 0.92:
                 res.append(self.code())
             elif allow_section:
-                res.append(("section", [("w", self.rng.choice(BASE).capitalize())] + self.words(0, 2),
-                            [self.para()] + self.blocks(self.rng.randint(0, 2), False)))
+                res.append(self.section(0))
             else:
                 res.append(self.para())
         return res
@@ -748,7 +796,7 @@ class DocGen:
             body = self.inlines(1, 6)
             if any(i[0] in ("m", "link", "url") for i in body):
                 self.nested_markup = True
-            res.append({"kind": k, "arg": arg, "type": typ, "body": body})
+            res.append({"kind": k, "arg": arg, "type": typ, "body": body, "type_first": self.rng.random() < 0.5})
         return res
 
     def document(self):
@@ -760,7 +808,8 @@ class DocGen:
             body[0][1].append(("code2", "a  b"))       # inline code with a run of two blanks
         elif r < 0.06:
             body[0][1].append(("w", "10\u00a0EUR"))    # a no-break space in the text
-        return {"owner": owner, "body": body, "fields": self.fields(owner)}
+        return {"owner": owner, "body": body, "fields": self.fields(owner),
+                "field_perm": self.rng.randrange(1 << 30) if self.rng.random() < 0.4 else None}
 
 
 # ====================================================================== documents: serialisers
@@ -779,6 +828,7 @@ class Ser:
         self.fmt = fmt
         self.ep = fmt == "epytext"
         self.last: Optional[str] = None
+        self.field_perm: Optional[int] = None
 
     # ---- inline: returns (source, visible)
     def inl(self, node, in_markup: Optional[str] = None) -> Tuple[str, str]:
@@ -904,6 +954,14 @@ class Ser:
         if t == "para":
             lines.extend(self.wrap(b[1], pad, pad, out.words))
             lines.append("")
+        elif t == "hard":
+            for l in b[1]:
+                lines.append(pad + l)
+                out.words.extend(l.split())
+            lines.append("")
+            out.flags.add("hard-para")
+            if any(len(x) == len(y) for x, y in zip(b[1], b[1][1:])):
+                out.flags.add("hard-para-equal-length")
         elif t in ("ulist", "olist"):
             li = ind + 2 if self.ep else ind
             for n, item in enumerate(b[1]):
@@ -980,7 +1038,9 @@ class Ser:
             if not self.ep:
                 from docutils.utils import column_width
                 ulen = column_width(title[0].strip())       # reST measures the underline in display columns
-            lines.append(pad + "=" * ulen)
+            level = b[3] if len(b) > 3 else 0
+            lines.append(pad + "=-~"[level] * ulen)
+            out.flags.add("section-level-%d" % level)
             lines.append("")
             for sub in b[2]:
                 self.block(sub, ind, out, lines)
@@ -999,16 +1059,26 @@ class Ser:
             def mk(tag, arg):
                 head = tag + (" " + arg if arg else "")
                 return ("@%s: " % head) if self.ep else (":%s: " % head)
+            entries: List[List[str]] = []
             for f in fields:
                 tag = self.TAGS.get(f["kind"], f["kind"])
                 w: List[str] = []
-                lines.extend(self.wrap(f["body"], mk(tag, f["arg"]), "    ", w))
+                desc = self.wrap(f["body"], mk(tag, f["arg"]), "    ", w)
                 e = dict(kind=f["kind"], tag=tag, arg=f["arg"], words=w, type=None)
                 if f["type"]:
                     ttag = {"return": "rtype", "yield": "ytype"}.get(f["kind"], "type")
-                    lines.append(mk(ttag, f["arg"] if ttag == "type" else None) + f["type"])
+                    tline = [mk(ttag, f["arg"] if ttag == "type" else None) + f["type"]]
                     e["type"] = f["type"]
+                    e["type_first"] = bool(f.get("type_first"))
+                    entries.extend([tline, desc] if f.get("type_first") else [desc, tline])
+                else:
+                    entries.append(desc)
                 exp.append(e)
+            if self.field_perm is not None:
+                import random as _random
+                _random.Random(self.field_perm).shuffle(entries)    # the author chooses the order of the fields
+            for en in entries:
+                lines.extend(en)
             return exp
         # google / numpy: fields are grouped into sections
         groups = [("param", "Args", "Parameters"), ("keyword", "Keyword Args", "Other Parameters"), ("return", "Returns", "Returns"),
@@ -1070,6 +1140,9 @@ class Ser:
                 if b[0] == "para":
                     lines.extend(self.wrap(b[1], "", "  " if n % 3 == 0 else "", w, width=40))
                     lines.append("")
+                elif b[0] == "hard":
+                    lines.extend(b[1])
+                    lines.append("")
                 elif b[0] in ("literal", "code"):
                     lines.extend(("    " + l) if l else "" for l in b[2 if b[0] == "literal" else 1])
                     lines.append("")
@@ -1078,6 +1151,7 @@ class Ser:
             return {"docstring": "\n".join(lines), "out": out, "fields": []}
         for b in doc["body"]:
             self.block(b, 0, out, lines)
+        self.field_perm = doc.get("field_perm")
         fexp = self.fields(doc["fields"], doc["owner"], lines)
         while lines and lines[-1] == "":
             lines.pop()
@@ -1419,6 +1493,104 @@ def stream_fields(ctx: Ctx) -> None:
     ctx.count("stream:fields-table", len(reqs))
 
 
+# ====================================================================== heading recogniser of _tokenize_para
+
+def impl_heading(l0: str, l1: Optional[str]) -> str:
+    """the real `_tokenize_para` on a one- or two-line paragraph at indentation 0"""
+    from pydoctor.epydoc.markup import epytext as E
+    lines = [l0] + ([l1] if l1 is not None else [])
+    toks: List[Any] = []
+    errs: List[Any] = []
+    try:
+        E._tokenize_para(lines, 0, 0, toks, errs)
+    except IndexError:
+        return "IndexError"
+    t = toks[-1]
+    if t.tag == E.Token.HEADING:
+        return "heading %d" % t.level
+    if any("heading typo" in e._descr for e in errs):
+        return "typo"
+    return "para"
+
+
+def stream_heading(ctx: Ctx) -> None:
+    """every pair (first line, second line) with the second line over {=,-,~,a,' '} up to a length bound"""
+    import itertools
+    from pydoctor.epydoc.markup import epytext as E
+    bound = 5 if ctx.quick else 6
+    firsts = ["a" * n for n in range(1, bound + 7)] + ["a a", "==", "-a", "~~~", "a  "]
+    seconds = ["".join(p) for n in range(1, bound + 1) for p in itertools.product("=-~a ", repeat=n)]
+    reqs, impls, pay = [], [], []
+    for l0 in firsts:
+        for l1 in seconds:
+            # what `_tokenize_para` puts in `contents`: the second line joins the paragraph unless it is blank,
+            # indented differently or starts with a list bullet
+            joins = bool(l1.strip()) and not l1.startswith(" ") and not E._BULLET_RE.match(l1, 0) and not l0.rstrip().endswith("::")
+            reqs.append("epytext heading %s%s" % (enc(l0.strip()), (" " + enc(l1.strip())) if joins else ""))
+            impls.append(impl_heading(l0, l1))
+            pay.append({"heading-lines": [l0, l1]})
+            out = impls[-1]
+            uniform = len(set(l1.strip())) == 1 and l1.strip()[0] in "=-~"
+            if out != "para" and not uniform:
+                ctx.fail("epytext:text-line-taken-for-heading-underline", {"heading-lines": [l0, l1]},
+                         "a line that is not a run of one heading character is treated as a heading underline (%s)" % out)
+    ctx.compare("_tokenize_para(heading)~Epytext.headingOf", reqs, impls, pay)
+    ctx.count("stream:heading-pairs", len(reqs))
+    ctx.exhaustive = True
+
+
+# ====================================================================== paired fields in every order
+
+PAIRS = [("return", "rtype", "Returns"), ("yield", "ytype", "Yields"), ("returns", "returntype", "Returns"), ("yields", "yieldtype", "Yields")]
+
+
+def impl_pair(desc_tag: str, type_tag: str, heading: str, events: List[str], fmt: str) -> str:
+    from pydoctor import model, epydoc2stan
+    from pydoctor.stanutils import flatten
+    mk = (lambda tag, text: "@%s: %s" % (tag, text)) if fmt == "epytext" else (lambda tag, text: ":%s: %s" % (tag, text))
+    fields = "\n".join("    " + mk(desc_tag if e[0] == "d" else type_tag, "TEXT" + e[1:]) for e in events)
+    src = 'def f(a):\n    """\n    Doc.\n\n%s\n    """\n' % fields
+    with contextlib.redirect_stdout(io.StringIO()):
+        system = model.System()
+        system.options.docformat = fmt
+        b = system.systemBuilder(system)
+        b.addModuleString(src, modname="m")
+        b.buildModules()
+        h = flatten(epydoc2stan.format_docstring(system.allobjects["m.f"]))
+    rows = field_table(dom(h)).get(heading)
+    if rows is None:
+        return "absent"
+    row = rows[0]
+    body = row[-1]
+    typ = row[0] if len(row) > 1 else ""
+    num = lambda cell: (re.search(r"TEXT(\d+)", cell).group(1) if "TEXT" in cell else "-")
+    return "body=%s type=%s" % (num(body), num(typ))
+
+
+def stream_pairs(ctx: Ctx) -> None:
+    import itertools
+    reqs, impls, pay = [], [], []
+    for desc_tag, type_tag, heading in PAIRS:
+        for fmt in ("epytext", "restructuredtext"):
+            for n in range(0, 4):
+                for kinds in itertools.product("dt", repeat=n):
+                    events = ["%s%d" % (k, i + 1) for i, k in enumerate(kinds)]
+                    out = impl_pair(desc_tag, type_tag, heading, events, fmt)
+                    reqs.append(("epytext pair " + " ".join(events)).strip())
+                    impls.append(out)
+                    pay.append({"pair": [desc_tag, type_tag], "events": events, "docformat": fmt})
+                    # direct oracle: one description and one type, either order: both texts under the entry
+                    if sorted(kinds) == ["d", "t"]:
+                        d = next(e[1:] for e in events if e[0] == "d")
+                        t = next(e[1:] for e in events if e[0] == "t")
+                        if out != "body=%s type=%s" % (d, t):
+                            ctx.fail("field:paired-%s-text-lost-by-order" % desc_tag.rstrip("s"),
+                                     {"pair": [desc_tag, type_tag], "events": events, "docformat": fmt, "shown": out},
+                                     f"{fmt}: @{type_tag}/@{desc_tag} in the order {events}: the entry shows {out}")
+    ctx.compare("return/yield handlers~Fields.runPair", reqs, impls, pay)
+    ctx.count("stream:paired-field-orders", len(reqs))
+
+
 def stream_documents(ctx: Ctx) -> None:
     n = 300 if ctx.quick else 6000
     gen = DocGen(ctx.rng)
@@ -1449,6 +1621,12 @@ def stream_documents(ctx: Ctx) -> None:
             if fmt != "plaintext" and "\u00a0" in ser["docstring"]:
                 ctx.count("doc-has:no-break-space:" + fmt)
             ctx.count("doc-fields:%d" % min(len(ser["fields"]), 5))
+            if fmt in ("epytext", "restructuredtext"):
+                for f in ser["fields"]:
+                    if f.get("type"):
+                        ctx.count("field-order:%s:%s" % (f["kind"], "type-first" if f.get("type_first") else "type-after"))
+                if doc.get("field_perm") is not None and len(ser["fields"]) > 1:
+                    ctx.count("field-order:shuffled-docstrings")
             oracle_document(ctx, fmt, doc, ser, full, src, r)
 
 
@@ -1461,6 +1639,8 @@ def run(ctx: Ctx) -> None:
     stream_splice(ctx)
     stream_plaintext(ctx)
     stream_fields(ctx)
+    stream_heading(ctx)
+    stream_pairs(ctx)
     stream_documents(ctx)
 
 
@@ -1528,6 +1708,26 @@ def replay(ctx: Ctx, obj) -> int:
             src = inp["doctest"]
             out, rq = impl_doctestbody(src), ("epytext doctestbody %s %s" % (enc(src), example_list(src)[0])).rstrip()
         mo = ctx.driver.run([rq])[0]
+        print("impl :", out)
+        print("model:", mo)
+        return int(out != mo)
+    if isinstance(inp, dict) and "heading-lines" in inp:
+        from pydoctor.epydoc.markup import epytext as E
+        l0, l1 = inp["heading-lines"]
+        joins = bool(l1.strip()) and not l1.startswith(" ") and not E._BULLET_RE.match(l1, 0) and not l0.rstrip().endswith("::")
+        out = impl_heading(l0, l1)
+        mo = ctx.driver.run(["epytext heading %s%s" % (enc(l0.strip()), (" " + enc(l1.strip())) if joins else "")])[0]
+        print("lines:", [l0, l1])
+        print("impl :", out)
+        print("model:", mo)
+        uniform = len(set(l1.strip())) == 1 and l1.strip()[0] in "=-~"
+        return int(out != mo or (out != "para" and not uniform))
+    if isinstance(inp, dict) and "events" in inp:
+        d, t = inp["pair"]
+        heading = next(h for a, b, h in PAIRS if a == d)
+        out = impl_pair(d, t, heading, inp["events"], inp["docformat"])
+        mo = ctx.driver.run([("epytext pair " + " ".join(inp["events"])).strip()])[0]
+        print("fields in source order:", inp["events"], "(d = @%s, t = @%s, %s)" % (d, t, inp["docformat"]))
         print("impl :", out)
         print("model:", mo)
         return int(out != mo)
